@@ -208,6 +208,9 @@ def k2_factor_sq(df=inf,p=95):
             56.99999999999994
     
     """
+    if p <= 0 or p >= 100:
+        raise RuntimeError( "invalid p: {}".format(p) )
+
     p = p / 100.0
     
     if df > inf_dof:
